@@ -23,7 +23,7 @@ def announce_scenario(rng, n, plens, outgoing):
             ev.append(ev_bown(rng.choice([True, False])))
         else:
             ev.append(ev_msg(random_peer_msg(rng, n, plens), **random_policy(rng, n, plens)))
-    return ev
+    return split_events(rng, ev, 0.08)
 
 
 class C11(HndBase):
